@@ -396,8 +396,11 @@ func recordFlagRecordsRejection(f *ssa.Function, head *ssa.BasicBlock, nIter int
 					continue
 				}
 				nRet++
-				ld, isLd := ret.Results[idx].(*ssa.UnOp)
-				if idx >= len(ret.Results) || !isLd || ld.Op != token.MUL || ld.X != ssa.Value(R) {
+				if idx < 0 || idx >= len(ret.Results) {
+					yieldsR = false
+					continue
+				}
+				if ld, isLd := ret.Results[idx].(*ssa.UnOp); !isLd || ld.Op != token.MUL || ld.X != ssa.Value(R) {
 					yieldsR = false
 				}
 			}
@@ -501,4 +504,349 @@ func grownOnePerIteration(v ssa.Value) bool {
 		back++
 	}
 	return entry > 0 && back > 0
+}
+
+// ---------------------------------------------------------------- slot function: the scans in a search helper (R11.4)
+
+// scanHelperShape recognises a helper g(s string, from int, c byte) int of the form
+//
+//	i := from; for i < len(s) && s[i] != c { i++ }; return i
+//
+// (or the `if s[i] == c { break }` spelling): the loop variable starts at from, advances by one, the loop is left
+// at the first index that holds c or when the string is exhausted, nothing else happens, and every return yields
+// the loop variable. Its result r therefore satisfies: from <= r; r <= len(s) when from <= len(s); r < len(s)
+// implies s[r] == c and no c in s[from:r] — the first match at or after from, len(s) when there is none.
+// Returns the positions of the three parameters.
+func scanHelperShape(g *ssa.Function) (sIdx, fromIdx, cIdx int, ok bool) {
+	sIdx, fromIdx, cIdx = -1, -1, -1
+	if g == nil || len(g.Blocks) == 0 || len(g.Blocks) > 6 || len(g.Params) != 3 || g.Signature.Results().Len() != 1 || len(g.FreeVars) != 0 {
+		return
+	}
+	for i, p := range g.Params {
+		b, isB := p.Type().Underlying().(*types.Basic)
+		if !isB {
+			return
+		}
+		switch {
+		case b.Info()&types.IsString != 0 && sIdx < 0:
+			sIdx = i
+		case b.Kind() == types.Int && fromIdx < 0:
+			fromIdx = i
+		case (b.Kind() == types.Uint8 || b.Kind() == types.Byte) && cIdx < 0:
+			cIdx = i
+		default:
+			return
+		}
+	}
+	if sIdx < 0 || fromIdx < 0 || cIdx < 0 {
+		return
+	}
+	if rb, isB := g.Signature.Results().At(0).Type().Underlying().(*types.Basic); !isB || rb.Kind() != types.Int {
+		return
+	}
+	s, from, c := ssa.Value(g.Params[sIdx]), ssa.Value(g.Params[fromIdx]), ssa.Value(g.Params[cIdx])
+	var ph *ssa.Phi
+	var inc *ssa.BinOp
+	for _, in := range core.OwnInstrs(g) {
+		x, isPhi := in.(*ssa.Phi)
+		if !isPhi {
+			continue
+		}
+		if ph != nil || len(x.Edges) != 2 {
+			return // one loop variable, nothing else merges
+		}
+		ph = x
+		for _, e := range x.Edges {
+			if b, isB := e.(*ssa.BinOp); isB && b.Op == token.ADD && b.X == ssa.Value(x) && isConstInt(1)(b.Y) {
+				inc = b
+			} else if e != from {
+				return
+			}
+		}
+	}
+	if ph == nil || inc == nil {
+		return
+	}
+	head := ph.Block()
+	iff, isIf := head.Instrs[len(head.Instrs)-1].(*ssa.If)
+	if !isIf {
+		return
+	}
+	cmp, isCmp := core.AsCmp(iff.Cond, true)
+	if !isCmp || cmp.Op != token.LSS || cmp.X != ssa.Value(ph) || !isLenOf(cmp.Y, s) {
+		return
+	}
+	test, exit := head.Succs[0], head.Succs[1]
+	tif, isIf := test.Instrs[len(test.Instrs)-1].(*ssa.If)
+	if !isIf {
+		return
+	}
+	tc, isCmp := core.AsCmp(tif.Cond, true)
+	if !isCmp || (tc.Op != token.EQL && tc.Op != token.NEQ) {
+		return
+	}
+	elem, ch := tc.X, tc.Y
+	if elem == c {
+		elem, ch = ch, elem
+	}
+	lk, isIdx := core.Unwrap(elem).(*ssa.Index)
+	if ch != c || !isIdx || lk.X != s || lk.Index != ssa.Value(ph) {
+		return
+	}
+	match, miss := test.Succs[0], test.Succs[1]
+	if tc.Op == token.NEQ {
+		match, miss = miss, match
+	}
+	if miss != inc.Block() || len(miss.Succs) != 1 || miss.Succs[0] != head {
+		return
+	}
+	// both ways out return the loop variable
+	returnsVar := func(b *ssa.BasicBlock) bool {
+		for hops := 0; hops < 2; hops++ {
+			for _, in := range b.Instrs {
+				switch x := in.(type) {
+				case *ssa.DebugRef:
+				case *ssa.Jump:
+				case *ssa.Return:
+					return len(x.Results) == 1 && x.Results[0] == ssa.Value(ph)
+				default:
+					return false
+				}
+			}
+			if len(b.Succs) != 1 {
+				return false
+			}
+			b = b.Succs[0]
+		}
+		return false
+	}
+	if !returnsVar(exit) || !returnsVar(match) {
+		return
+	}
+	// nothing else anywhere in the helper
+	for _, b := range g.Blocks {
+		for _, in := range b.Instrs {
+			switch x := in.(type) {
+			case *ssa.DebugRef, *ssa.Jump, *ssa.Return, *ssa.If, *ssa.Phi:
+			case *ssa.BinOp, *ssa.Index, *ssa.Convert:
+				if b != head && b != test && b != miss {
+					return
+				}
+			case *ssa.Call:
+				if !isBuiltin(x, "len") || (b != head && b != test) {
+					return
+				}
+			default:
+				return
+			}
+		}
+	}
+	for _, b := range g.Blocks {
+		if r, isRet := b.Instrs[len(b.Instrs)-1].(*ssa.Return); isRet && (len(r.Results) != 1 || r.Results[0] != ssa.Value(ph)) {
+			return
+		}
+	}
+	return sIdx, fromIdx, cIdx, true
+}
+
+// slotFunctionScanHelperIdiom decides R11.4 for a slot function that locates the braces with a search helper of
+// the scanHelperShape form: s = h(key, 0, '{'), e = h(key, s+1, '}'). With L = len(key) the helper's contract gives
+// 0 <= s <= L and, when s < L, s+1 <= e <= L (e = s+1 when s = L); "the key has a closed, non-empty tag" is exactly
+// s < L && e < L && e > s+1. On every path to a return the comparisons the path passed (those between s, e, L and
+// constants; a comparison that cannot be read is left out, which only makes the proof harder) must exclude a tag
+// when the whole key is hashed, and establish it when key[s+1:e] is hashed. Entailment is decided by searching the
+// models with L <= 40. That is enough: the facts read are difference constraints between s, e, L and 0 whose
+// offsets are at most 2 on either side (a gap of at most 5 per constraint, at most three constraints in a chain:
+// 15) and at most eight disequalities (each can push a value on by one); a satisfiable set of them has a model
+// within that range, so "no model found" means "no model".
+func slotFunctionScanHelperIdiom(r *core.Report, f *ssa.Function, key ssa.Value, cons string, argOf func(*ssa.Return) ssa.Value) (string, bool) {
+	var sCall, eCall *ssa.Call
+	var helper *ssa.Function
+	nS, nE := 0, 0
+	isPlus1 := func(v ssa.Value, of ssa.Value) bool {
+		b, ok := v.(*ssa.BinOp)
+		return ok && of != nil && b.Op == token.ADD && ((b.X == of && isConstInt(1)(b.Y)) || (b.Y == of && isConstInt(1)(b.X)))
+	}
+	for pass := 0; pass < 2; pass++ {
+		for _, in := range core.OwnInstrs(f) {
+			c, ok := in.(*ssa.Call)
+			if !ok || c.Call.IsInvoke() || c.Call.StaticCallee() == nil {
+				continue
+			}
+			g := c.Call.StaticCallee()
+			si, fi, ci, shape := scanHelperShape(g)
+			if !shape || len(c.Call.Args) != 3 || c.Call.Args[si] != key {
+				continue
+			}
+			switch {
+			case pass == 0 && isConstInt('{')(c.Call.Args[ci]) && isConstInt(0)(c.Call.Args[fi]):
+				sCall, helper = c, g
+				nS++
+			case pass == 1 && sCall != nil && g == helper && isConstInt('}')(c.Call.Args[ci]) && isPlus1(c.Call.Args[fi], sCall):
+				eCall = c
+				nE++
+			}
+		}
+	}
+	if nS != 1 || nE != 1 || core.LoopHeadOf(sCall.Block()) != nil || core.LoopHeadOf(eCall.Block()) != nil {
+		return "", false
+	}
+	// a term over s, e, L
+	type term struct {
+		v int // 0 constant, 1 s, 2 e, 3 L
+		c int64
+	}
+	var termOf func(v ssa.Value, depth int) (term, bool)
+	termOf = func(v ssa.Value, depth int) (term, bool) {
+		v = core.Unwrap(v)
+		switch {
+		case v == ssa.Value(sCall):
+			return term{1, 0}, true
+		case v == ssa.Value(eCall):
+			return term{2, 0}, true
+		case isLenOf(v, key):
+			return term{3, 0}, true
+		}
+		if k, ok := core.ConstInt(v); ok && k >= -2 && k <= 2 {
+			return term{0, k}, true
+		}
+		if b, ok := v.(*ssa.BinOp); ok && depth < 2 && (b.Op == token.ADD || b.Op == token.SUB) {
+			if k, isC := core.ConstInt(b.Y); isC && k >= -2 && k <= 2 {
+				if t, ok := termOf(b.X, depth+1); ok && t.v != 0 {
+					if b.Op == token.SUB {
+						k = -k
+					}
+					if t.c+k >= -2 && t.c+k <= 2 {
+						return term{t.v, t.c + k}, true
+					}
+				}
+			}
+			if k, isC := core.ConstInt(b.X); isC && b.Op == token.ADD && k >= -2 && k <= 2 {
+				if t, ok := termOf(b.Y, depth+1); ok && t.v != 0 && t.c+k >= -2 && t.c+k <= 2 {
+					return term{t.v, t.c + k}, true
+				}
+			}
+		}
+		return term{}, false
+	}
+	type fact struct {
+		op   token.Token
+		x, y term
+	}
+	val := func(t term, s, e, l int64) int64 {
+		switch t.v {
+		case 1:
+			return s + t.c
+		case 2:
+			return e + t.c
+		case 3:
+			return l + t.c
+		}
+		return t.c
+	}
+	holds := func(fc fact, s, e, l int64) bool {
+		a, b := val(fc.x, s, e, l), val(fc.y, s, e, l)
+		switch fc.op {
+		case token.EQL:
+			return a == b
+		case token.NEQ:
+			return a != b
+		case token.LSS:
+			return a < b
+		case token.LEQ:
+			return a <= b
+		case token.GTR:
+			return a > b
+		case token.GEQ:
+			return a >= b
+		}
+		return true
+	}
+	// is there a model of the helper's contract and the facts in which the key has (tag=true) / has no (tag=false) tag?
+	model := func(facts []fact, tag bool) bool {
+		for l := int64(0); l <= 40; l++ {
+			for s := int64(0); s <= l; s++ {
+				eLo, eHi := s+1, l
+				if s == l {
+					eHi = s + 1
+				}
+				for e := eLo; e <= eHi; e++ {
+					if (s < l && e < l && e > s+1) != tag {
+						continue
+					}
+					all := true
+					for _, fc := range facts {
+						if !holds(fc, s, e, l) {
+							all = false
+							break
+						}
+					}
+					if all {
+						return true
+					}
+				}
+			}
+		}
+		return false
+	}
+	core.Atomic[helper] = true // the helper is read by its contract: the paths do not walk through its loop
+	defer delete(core.Atomic, helper)
+	bad := ""
+	var badPos token.Pos
+	nWhole, nSlice := 0, 0
+	okEnum := core.EnumPaths(f.Blocks[0], 0, 100000, func(p *core.Path) {
+		ret, ok := p.End.(*ssa.Return)
+		if !ok || bad != "" {
+			return
+		}
+		arg := argOf(ret)
+		if arg == nil {
+			return
+		}
+		arg = p.Resolve(arg)
+		var facts []fact
+		nNeq := 0
+		for _, fct := range p.Conds {
+			c, isCmp := core.FactCmp(fct)
+			if !isCmp {
+				continue
+			}
+			x, okx := termOf(c.X, 0)
+			y, oky := termOf(c.Y, 0)
+			if okx && oky {
+				if c.Op == token.NEQ {
+					if nNeq++; nNeq > 8 {
+						continue // left out (see above): fewer facts only make the proof harder
+					}
+				}
+				facts = append(facts, fact{c.Op, x, y})
+			}
+		}
+		if arg == key {
+			nWhole++
+			if model(facts, true) {
+				bad, badPos = "the whole key is hashed on a path that does not exclude a closed, non-empty tag (first '{' found, first '}' after it found, at least one byte between them)", ret.Pos()
+			}
+			return
+		}
+		sl, isSl := arg.(*ssa.Slice)
+		if !isSl || sl.X != key || sl.Low == nil || !isPlus1(sl.Low, sCall) || sl.High != ssa.Value(eCall) || sl.Max != nil {
+			bad, badPos = "the hashed substring is not key[s+1:e] with s, e the positions the search helper found", ret.Pos()
+			return
+		}
+		nSlice++
+		if model(facts, false) {
+			bad, badPos = "the tag is hashed on a path that did not establish: '{' found, '}' found after it, tag non-empty", ret.Pos()
+		}
+	})
+	if !okEnum {
+		r.Undecided(cons, f.Pos(), "too many paths")
+		return "?", true
+	}
+	if bad != "" {
+		r.Fail(cons, badPos, "%s", bad)
+		return "bad", true
+	}
+	r.Check(nWhole > 0 && nSlice > 0, cons, f.Pos(), "expected both whole-key and tag returns (whole=%d tag=%d)", nWhole, nSlice)
+	return "first{first}nonempty&16383", true
 }
